@@ -224,7 +224,7 @@ def check_C05(tier):
     # all scripts over {c1,c0,r,R,e} up to length 4 x flags, alone and followed by another request
     cases = connref_cases(res, "scripts", 1, "scripts1")
     if thorough:
-        cases += connref_cases(res, "scripts", 2, "scripts2")[::3]
+        cases += connref_cases(res, "scripts3", 2, "scripts3x2")[::3]
     replay_connref(res, vh, cases, ["mem", "sock"] if thorough else ["mem"], "connref-replay")
     # a sample over sockets in quick mode
     if not thorough:
@@ -235,7 +235,7 @@ def check_C05(tier):
     from .client_checks import client_more_stage
     client_more_stage(res, vh, thorough)
     res.rule = ("server: every script over {set_continues(t/f), reply(?), reply(ignore error), reply_error} of length <= 4 x "
-                "{more,oneway}; per-step results and bytes compared; non-trivial = scripts that set continues; client: Client.tla "
+                "{more,oneway} (thorough: also every pair of scripts of length <= 3, a third of them replayed); per-step results and bytes compared; non-trivial = scripts that set continues; client: Client.tla "
                 "reply streams with k continues")
     res.exhaustive = True
     return res.finish()
